@@ -1,6 +1,6 @@
 SPECIFICATION Spec
 CONSTANTS
-  Roles = {"client_gm", "server_gm", "server_auto_gm", "client_tls", "server_tls", "server_auto_tls"}
+  Roles = {"client_gm", "server_gm", "server_auto_gm", "client_tls", "server_tls", "server_auto_tls", "client_tls10", "server_tls10"}
   InjTypes = {"HREQ", "CH", "SH", "NST", "CERT", "CERT_RSA", "SKE", "CREQ", "SHD", "CKE", "CV", "FIN", "CSTATUS", "NPN", "UNK", "CERT_RSA2"}
   Truncs = {"body1", "bodyhalf", "bodyminus1", "len+1", "len-1", "len0", "lenmax", "inner+", "inner-"}
   Versions = {0, 2, 256, 257, 512, 768, 769, 770, 771, 772, 1024, 65535}
